@@ -120,6 +120,23 @@ func Run(c *ev.Ctx) int {
 		}(cf)
 	}
 	wg.Wait()
+	// concurrent lane: distinct keys uploaded at the same time through one process
+	rc := c.Rng("concurrent")
+	for i, cf := range cfgs {
+		rounds := c.Pick(1, 4)
+		if !c.Thorough() && i > 1 {
+			break
+		}
+		for k := 0; k < rounds; k++ {
+			seed := rc.Int63n(1 << 40)
+			wg.Add(1)
+			go func(cf cfgT, k int, seed int64) {
+				defer wg.Done()
+				runConcurrent(c, cf, k, seed)
+			}(cf, k, seed)
+		}
+	}
+	wg.Wait()
 	statMu.Lock()
 	for t, m := range stats {
 		c.Set(t, m)
